@@ -1112,7 +1112,7 @@ def run_property(pid, tier):
     vlib.build_harness()
     spec = SHUTTLE_PROPS[pid]
     known = vlib.load_known()
-    DEADLINE[0] = None if tier == "quick" else time.time() + float(os.environ.get("VERIF_THOROUGH_BUDGET_S", "1500"))
+    DEADLINE[0] = None if tier == "quick" else time.time() + float(os.environ.get("VERIF_THOROUGH_BUDGET_S", "600"))
     cap = 4000 if tier == "quick" else 8000
     totals = {}
     problems = []
